@@ -64,6 +64,10 @@ let run (st : stream) (b : Buffer.t) : unit =
            Some (List.fold_left (fun a bb -> match vid_cmp a bb with Lt -> bb | _ -> a) x r) in
          let pick3 k = if k >= 4000 then newest dummies else if k >= 3000 then newest real
            else if k >= 2000 then pick real (k - 2000) else if k >= 1000 then pick dummies (k - 1000) else pick all k in
+         let ((_, osd), oed) = nw.nw_overflow in
+         let on_overflow v = match tour_of !s v with
+           | Ok t -> nid_cmp (first_node t) osd = Eq || nid_cmp (last_node t) oed = Eq | _ -> false in
+         let pick4 k = if k >= 5000 then pick (List.filter on_overflow real) (k - 5000) else pick3 k in
          let read_nodes () = let k = next_int st in repeat k (fun () -> parse_nid (next st)) in
          let segment_at v i delta =
            match tour_of !s v with
@@ -97,11 +101,7 @@ let run (st : stream) (b : Buffer.t) : unit =
               | Some v -> desc := vid v; lift (replace_vehicle_by_dummy nw !s v) (fun s2 -> OOk (s2, "")))
            | "addpath" ->
              let k = next_int st in let nodes = read_nodes () in
-             let ((_, osd), oed) = nw.nw_overflow in
-             let on_overflow v = match tour_of !s v with
-               | Ok t -> nid_cmp (first_node t) osd = Eq || nid_cmp (last_node t) oed = Eq | _ -> false in
-             let pk = if k >= 5000 then pick (List.filter on_overflow real) (k - 5000)
-               else if k >= 1000 then (match pick3 k with Some v when List.exists (fun x -> vid_eqb x v) real -> Some v | _ -> None)
+             let pk = if k >= 1000 then (match pick4 k with Some v when List.exists (fun x -> vid_eqb x v) real -> Some v | _ -> None)
                else pick real k in
              (match pk with
               | None -> OSkip
@@ -124,7 +124,7 @@ let run (st : stream) (b : Buffer.t) : unit =
                    lift (remove_segment nw !s (a, bb) v) (fun s2 -> OOk (s2, ""))))
            | "fit" | "override" ->
              let kp = next_int st in let i = next_int st in let dl = next_int st in let kr = next_int st in
-             (match pick3 kp, pick3 kr with
+             (match pick4 kp, pick4 kr with
               | Some p, Some r ->
                 (match segment_at p i dl with
                  | None -> OSkip
